@@ -20,13 +20,13 @@ C13_MODULES = ["contracts.core_models", "contracts.c09_bounded", "contracts.c13_
 
 C06_MODULES = C05_MODULES + ["contracts.c13_types", "contracts.c06_names", "contracts.c06_ports", "contracts.c06_stmts"]
 
-C02_MODULES = C05_MODULES + ["contracts.c13_types", "contracts.c13_views", "contracts.c02_ops", "contracts.c02_frontend", "contracts.c02_replace"]
+C02_MODULES = C05_MODULES + ["contracts.c13_types", "contracts.c13_views", "contracts.c02_ops", "contracts.c02_frontend", "contracts.c02_replace", "contracts.c02_assembler", "contracts.c03_lowering"]
 
 PROPERTIES = {
     "C02": {
         "modules": C02_MODULES,
         "level": "proof",
-        "explanation": "the chain from a Python operator to emitted logic is decided link by link, each from the real source for symbolic widths and values: (1) every operator replacement of TypeQualifier yields the IR operator the statement assigns to that Python operator, over the operands in source order, with the Python-side result (68 obligations); (2) the comparison dispatch of PrepareAst (nested single_compare) falls back to the REFLECTED method with swapped operands, value = lhs OP rhs; all()/any() fold constants exactly when run-time elements cannot change the outcome (arrangements up to 3 elements); (3) the Python-side result of every arithmetic operator equals the documented semantics (C09 contracts: kind, width, wrapped value; bit-level BitVector operators bounded); (4) the backend writers BinOp/Compare/UnaryOp.write emit text that, read with numeric_std / std_logic_1164 semantics (specs/vhdl_ops.py), is well typed and has the documented type, width and value for every operator and operand-type combination the front end accepts (arithmetic, element-wise, concatenation with the left operand as most significant bits, shifts logical/arithmetic, comparisons, invert/negate/abs); (5) casts around operands and results (format_cast) carry the bits of the conversion matrix; nested slices and typed views keep their offsets (C13 contracts).",
+        "explanation": "the chain from a Python operator to emitted logic is decided link by link, each from the real source for symbolic widths and values: (1) every operator replacement of TypeQualifier yields the IR operator the statement assigns to that Python operator, over the operands in source order, with the Python-side result (68 obligations); (2) the comparison dispatch of PrepareAst (nested single_compare) falls back to the REFLECTED method with swapped operands, value = lhs OP rhs; all()/any() fold constants exactly when run-time elements cannot change the outcome (arrangements up to 3 elements); (3) the Python-side result of every arithmetic operator equals the documented semantics (C09 contracts: kind, width, wrapped value; bit-level BitVector operators bounded); (4) the backend writers BinOp/Compare/UnaryOp.write emit text that, read with numeric_std / std_logic_1164 semantics (specs/vhdl_ops.py), is well typed and has the documented type, width and value for every operator and operand-type combination the front end accepts (arithmetic, element-wise, concatenation with the left operand as most significant bits, shifts logical/arithmetic, comparisons, invert/negate/abs); (5) casts around operands and results (format_cast) carry the bits of the conversion matrix; nested slices and typed views keep their offsets (C13 contracts) and VhdlScope._format_ref writes a slice / constant index whose text denotes exactly the referenced bits of the parent for symbolic bounds and accumulated base offsets; (6) the two translation steps in between are structure preserving: IrGenerator._apply_impl evaluates the operands left to right and emits one IR node with the same operator over the operands' results in source order, _StmtAssembler.apply turns every IR statement kind into the vhdl node with the same operator, operands, result and assignment kind (signal assignment in concurrent, variable assignment in sequential contexts).",
         "assumptions": COMMON_ASSUME + BITLEVEL_ASSUME + VHDL_ASSUME + [
             "the numeric_std / std_logic_1164 meaning of the emitted operators is the trusted transcription specs/vhdl_ops.py + specs/vhdl_expr.py (no VHDL simulator is available to cross-check it)",
             "operand lemma: an operand expression writes text whose VHDL type and value are those of the CoHDL type and value of its .result (established by format_cast / format_vhdl_cast; format_value's reference chain _format_ref is covered for typed views and slices by the C13 contracts, not re-proved here)",
@@ -44,7 +44,7 @@ PROPERTIES = {
         ],
     },
     "C03": {
-        "modules": C05_MODULES + ["contracts.c08_temporaries", "contracts.c08_cleanup", "contracts.c03_lowering", "contracts.c04_reset", "contracts.c04_wrappers"],
+        "modules": C05_MODULES + ["contracts.c08_temporaries", "contracts.c08_cleanup", "contracts.c03_lowering", "contracts.c04_reset", "contracts.c04_wrappers", "contracts.c02_assembler"],
         "level": "proof",
         "explanation": "the statement is decided per lowering step, each proved from the real source: (1) the setter replacements of Signal/Variable/Temporary (<<=, .next, ^=, .push, @=, .value) accept exactly the documented target kinds and produce the assignment mode of the operator (C05 setter contracts); (2) IrGenerator._apply_impl lowers an assignment to exactly one SignalAssignment / SignalPush / VariableAssignment per open block according to mode, target kind and context kind (temporaries: immediate in sequential, continuous in concurrent contexts); (3) after an if/else execution continues in exactly the end blocks of both branches (25 x 2 arrangements of how branches end, incl. returns and state transitions), the If node being placed before its branches; (4) ir.Sequential._pushed_resettable_signals gives every pushed root -- also noreset roots and roots pushed only through a slice -- its default at the start of each step (reset_pushed), per event for arbitrary prior sets; (5) the process bodies built by std.sequential execute reset_pushed and then the user step exactly when trigger and step condition hold; (6) cleanup_bool_cast only replaces intermediates whose source is an intermediate, so a bool() taken before a later variable update keeps the old value.",
         "assumptions": COMMON_ASSUME + [
